@@ -248,6 +248,47 @@ def mutant_prop(case, rec):
         rec.sample({'text': text[:600], 'error': str(res)})
 
 
+OVERSIZE = ['18446744073709551616', '-18446744073709551616', '99999999999999999999999999', '-99999999999999999999999999',
+            '340282366920938463463374607431768211456', '-18446744073709551617']
+
+
+@st.composite
+def oversize_cases(draw):
+    """A number that stands where the grammar wants a number (range bound, DEFVAL) is replaced by one beyond 64 bits."""
+    case = draw(files(mibgen.profile(dialects=('v2', 'v2', 'v1'), modules=(1, 1), decls=(2, 8), texts='short',
+                                     kinds=('scalar', 'scalar', 'type', 'table'))))
+    toks, _, _, _ = build_file(case)
+    spots = [i for i, t in enumerate(toks) if isinstance(t, str) and re.match(r'^-?[0-9]+$', t) and i > 0
+             and toks[i - 1] in ('(', '..', '|', '{') and (toks[i - 1] != '{' or (i > 1 and toks[i - 2] == 'DEFVAL'))]
+    case['spots'] = spots
+    case['pick'] = draw(st.integers(0, 10 ** 6))
+    case['tok'] = draw(st.sampled_from(OVERSIZE))
+    case['dialect'] = draw(st.sampled_from(case['dialects']))
+    return case
+
+
+def oversize_prop(case, rec):
+    toks, _, _, _ = build_file(case)
+    rec.evaluated()
+    if not case['spots']:
+        rec.count('oversize.no-number-position')
+        return
+    pos = case['spots'][case['pick'] % len(case['spots'])]
+    mt = list(toks)
+    mt[pos] = case['tok']
+    text, spans = mibgen.join_tokens(mt, case['seps'])
+    want = spans[pos][1]
+    status, res = guarded_parse(case['dialect'], text, case)
+    rec.count('oversize.' + ('negative' if case['tok'].startswith('-') else 'positive'))
+    if status == 'ok':
+        raise Violation('oversize-number-accepted', 'number %s on line %d (beyond 64 bits) was accepted' % (case['tok'], want),
+                        case, {'text': text})
+    rec.mark_nontrivial(digest(text))
+    if res.lineno != want:
+        raise Violation('wrong-line-number', 'oversize number %s is on line %d, error says line %s: %s' % (
+            case['tok'], want, res.lineno, res), case, {'text': text})
+
+
 def _insertable(toks, i):
     """Position i (insert before token i) lies in the lexer's INITIAL state."""
     if i == 0:
@@ -460,6 +501,7 @@ def run(ctx):
     ctx.search('prefix', files, prefix_prop, ctx.pick(24, 400), shrink=False)
     ctx.search('mutant', mutants, mutant_prop, ctx.pick(6000, 200000))
     ctx.search('exactline', exact_line_cases, exact_line_prop, ctx.pick(3000, 100000))
+    ctx.search('oversize', oversize_cases, oversize_prop, ctx.pick(2000, 40000))
     ctx.search('noise', noise, noise_prop, ctx.pick(4000, 150000))
     ctx.search('compile', mutants, compile_prop, ctx.pick(1000, 30000))
     probes(ctx)
@@ -480,5 +522,7 @@ def replay(ctx, data):
         exact_line_prop(case, rec)
     elif search == 'compile':
         compile_prop(case, rec)
+    elif search == 'oversize':
+        oversize_prop(case, rec)
     else:
         noise_prop(case, rec)
